@@ -150,26 +150,26 @@ macro_rules! prim_int {
             refenc: |v, r| { r.int(*v as i128) }, eq: |a, b| a == b);
     };
 }
-prim_int!(u8_, u8, 2, { k0 = 0, k1 = 1 });
-prim_int!(u16_, u16, 3, { k0 = 0, k1 = 1, k2 = 2 });
-prim_int!(u32_, u32, 5, { k0 = 0, k1 = 1, k2 = 2, k4 = 4 });
-prim_int!(u64_, u64, 9, { k0 = 0, k1 = 1, k4 = 4, k8 = 8 });
-prim_int!(i8_, i8, 2, { k0 = 0, k1 = 1 });
-prim_int!(i16_, i16, 3, { k0 = 0, k2 = 2 });
-prim_int!(i32_, i32, 5, { k0 = 0, k3 = 3, k4 = 4 });
-prim_int!(i64_, i64, 9, { k0 = 0, k5 = 5, k8 = 8 });
-prim_int!(usize_, usize, 9, { k0 = 0, k8 = 8 });
-prim_int!(isize_, isize, 9, { k0 = 0, k8 = 8 });
+prim_int!(u8_, u8, 2, { k1 = 1 });
+prim_int!(u16_, u16, 3, { k1 = 1, k2 = 2 });
+prim_int!(u32_, u32, 5, { k1 = 1, k2 = 2, k4 = 4 });
+prim_int!(u64_, u64, 9, { k1 = 1, k4 = 4, k8 = 8 });
+prim_int!(i8_, i8, 2, { k1 = 1 });
+prim_int!(i16_, i16, 3, { k2 = 2 });
+prim_int!(i32_, i32, 5, { k3 = 3, k4 = 4 });
+prim_int!(i64_, i64, 9, { k5 = 5, k8 = 8 });
+prim_int!(usize_, usize, 9, { k8 = 8 });
+prim_int!(isize_, isize, 9, { k8 = 8 });
 
-codec!(bool_, q, bool, len = 1, unwind = 10, skip = crate::util::skip_unreachable, pfx: { k0 = 0 }, gen: kani::any(),
+codec!(bool_, q, bool, len = 1, unwind = 10, skip = crate::util::skip_unreachable, pfx: {  }, gen: kani::any(),
     refenc: |v, r| { r.byte(if *v { 0xf5 } else { 0xf4 }) }, eq: |a, b| a == b);
-codec!(char_, q, char, len = 5, unwind = 10, skip = crate::util::skip_unreachable, pfx: { k0 = 0, k1 = 1, k2 = 2, k4 = 4 }, gen: kani::any(),
+codec!(char_, q, char, len = 5, unwind = 10, skip = crate::util::skip_unreachable, pfx: { k1 = 1, k2 = 2, k4 = 4 }, gen: kani::any(),
     refenc: |v, r| { r.uint(*v as u32 as u64) }, eq: |a, b| a == b);
-codec!(f32_, q, f32, len = 5, unwind = 10, skip = crate::util::skip_unreachable, pfx: { k0 = 0, k1 = 1, k4 = 4 }, gen: f32::from_bits(kani::any()),
+codec!(f32_, q, f32, len = 5, unwind = 10, skip = crate::util::skip_unreachable, pfx: { k1 = 1, k4 = 4 }, gen: f32::from_bits(kani::any()),
     refenc: |v, r| { r.byte(0xfa); r.be32(v.to_bits()) }, eq: |a, b| a.to_bits() == b.to_bits());
-codec!(f64_, q, f64, len = 9, unwind = 11, skip = crate::util::skip_unreachable, pfx: { k0 = 0, k1 = 1, k8 = 8 }, gen: f64::from_bits(kani::any()),
+codec!(f64_, q, f64, len = 9, unwind = 11, skip = crate::util::skip_unreachable, pfx: { k1 = 1, k8 = 8 }, gen: f64::from_bits(kani::any()),
     refenc: |v, r| { r.byte(0xfb); r.be64(v.to_bits()) }, eq: |a, b| a.to_bits() == b.to_bits());
-codec!(unit_, q, (), len = 1, unwind = 10, skip = crate::util::skip_unreachable, fix0: 0x80, pfx: { k0 = 0 }, gen: (),
+codec!(unit_, q, (), len = 1, unwind = 10, skip = crate::util::skip_unreachable, fix0: 0x80, pfx: {  }, gen: (),
     refenc: |_v, r| { r.byte(0x80) }, eq: |_a, _b| true);
 codec!(phantom_, q, PhantomData<u8>, len = 1, unwind = 10, skip = crate::util::skip_unreachable, fix0: 0x80, gen: PhantomData,
     refenc: |_v, r| { r.byte(0x80) }, eq: |_a, _b| true);
@@ -179,11 +179,11 @@ fn any_int() -> Int {
     kani::assume(x >= -(1i128 << 64) && x <= (1i128 << 64) - 1);
     Int::try_from(x).unwrap()
 }
-codec!(int_, q, Int, len = 9, unwind = 11, skip = crate::util::skip_unreachable, pfx: { k0 = 0, k1 = 1, k8 = 8 }, gen: any_int(),
+codec!(int_, q, Int, len = 9, unwind = 11, skip = crate::util::skip_unreachable, pfx: { k1 = 1, k8 = 8 }, gen: any_int(),
     refenc: |v, r| { r.int(i128::from(*v)) }, eq: |a, b| a == b);
-codec!(tag_, q, Tag, len = 9, unwind = 11, skip = crate::util::skip_unreachable, pfx: { k0 = 0, k8 = 8 }, gen: Tag::new(kani::any()),
+codec!(tag_, q, Tag, len = 9, unwind = 11, skip = crate::util::skip_unreachable, pfx: { k8 = 8 }, gen: Tag::new(kani::any()),
     refenc: |v, r| { r.head(6, v.as_u64()) }, eq: |a, b| a == b);
-codec!(tagged_, q, Tagged<1000, u16>, len = 6, unwind = 10, skip = crate::util::skip_unreachable, pfx: { k0 = 0, k1 = 1, k2 = 2, k3 = 3, k4 = 4, k5 = 5 }, gen: Tagged::new(kani::any()),
+codec!(tagged_, q, Tagged<1000, u16>, len = 6, unwind = 10, skip = crate::util::skip_unreachable, pfx: { k1 = 1, k2 = 2, k3 = 3, k4 = 4, k5 = 5 }, gen: Tagged::new(kani::any()),
     refenc: |v, r| { r.head(6, 1000); r.uint(*v.value() as u64) }, eq: |a, b| a == b);
 
 // NonZero / Wrapping / Cell / RefCell / atomics
@@ -205,11 +205,11 @@ nz!(nz_i32, NonZeroI32, i32, 5);
 nz!(nz_i64, NonZeroI64, i64, 9);
 nz!(nz_isize, NonZeroIsize, isize, 9);
 
-codec!(wrapping_, q, Wrapping<i16>, len = 3, unwind = 10, skip = crate::util::skip_unreachable, pfx: { k0 = 0, k2 = 2 }, gen: Wrapping(kani::any()),
+codec!(wrapping_, q, Wrapping<i16>, len = 3, unwind = 10, skip = crate::util::skip_unreachable, pfx: { k2 = 2 }, gen: Wrapping(kani::any()),
     refenc: |v, r| { r.int(v.0 as i128) }, eq: |a, b| a == b);
-codec!(cell_, q, Cell<u32>, len = 5, unwind = 10, skip = crate::util::skip_unreachable, pfx: { k0 = 0, k4 = 4 }, gen: Cell::new(kani::any()),
+codec!(cell_, q, Cell<u32>, len = 5, unwind = 10, skip = crate::util::skip_unreachable, pfx: { k4 = 4 }, gen: Cell::new(kani::any()),
     refenc: |v, r| { r.uint(v.get() as u64) }, eq: |a, b| a == b);
-codec!(refcell_, q, RefCell<i8>, len = 2, unwind = 10, skip = crate::util::skip_unreachable, pfx: { k0 = 0, k1 = 1 }, gen: RefCell::new(kani::any()),
+codec!(refcell_, q, RefCell<i8>, len = 2, unwind = 10, skip = crate::util::skip_unreachable, pfx: { k1 = 1 }, gen: RefCell::new(kani::any()),
     refenc: |v, r| { r.int(*v.borrow() as i128) }, eq: |a, b| a == b);
 
 macro_rules! atomic {
@@ -234,39 +234,56 @@ atomic!(atomic_i64, AtomicI64, i64, 9);
 atomic!(atomic_isize, AtomicIsize, isize, 9);
 
 // Compound types over primitives.
-codec!(result_, q, Result<u8, bool>, len = 3, unwind = 10, skip = crate::util::skip_unreachable, fix0: 0x82,
-    pfx: { k0 = 0, k1 = 1, k2 = 2 }, gen: { if kani::any() { Ok(kani::any()) } else { Err(kani::any()) } },
+codec!(result_, q, Result<u8, bool>, len = 4, unwind = 10, skip = crate::util::skip_unreachable, fix0: 0x82,
+    pfx: { k1 = 1, k2 = 2 }, gen: { if kani::any() { Ok(kani::any()) } else { Err(kani::any()) } },
     refenc: |v, r| { r.byte(0x82); match v { Ok(x) => { r.byte(0x00); r.uint(*x as u64) } Err(b) => { r.byte(0x01); r.byte(if *b { 0xf5 } else { 0xf4 }) } } },
     eq: |a, b| a == b);
-codec!(tuple1, q, (u16,), len = 4, unwind = 10, skip = crate::util::skip_unreachable, fix0: 0x81, pfx: { k0 = 0, k1 = 1, k2 = 2, k3 = 3 }, gen: (kani::any(),),
+codec!(tuple1, q, (u16,), len = 4, unwind = 10, skip = crate::util::skip_unreachable, fix0: 0x81, pfx: { k1 = 1, k2 = 2, k3 = 3 }, gen: (kani::any(),),
     refenc: |v, r| { r.byte(0x81); r.uint(v.0 as u64) }, eq: |a, b| a == b);
-codec!(tuple2, q, (u8, bool), len = 4, unwind = 10, skip = crate::util::skip_unreachable, fix0: 0x82, pfx: { k0 = 0, k1 = 1, k2 = 2, k3 = 3 }, gen: (kani::any(), kani::any()),
+codec!(tuple2, q, (u8, bool), len = 4, unwind = 10, skip = crate::util::skip_unreachable, fix0: 0x82, pfx: { k1 = 1, k2 = 2, k3 = 3 }, gen: (kani::any(), kani::any()),
     refenc: |v, r| { r.byte(0x82); r.uint(v.0 as u64); r.byte(if v.1 { 0xf5 } else { 0xf4 }) }, eq: |a, b| a == b);
-codec!(tuple3, q, (i8, u32, char), len = 13, unwind = 15, skip = crate::util::skip_unreachable, fix0: 0x83, pfx: { k0 = 0, k1 = 1, k3 = 3, k7 = 7, k8 = 8, k12 = 12 }, gen: (kani::any(), kani::any(), kani::any()),
+codec!(tuple3, q, (i8, u32, char), len = 13, unwind = 15, skip = crate::util::skip_unreachable, fix0: 0x83, pfx: { k1 = 1, k3 = 3, k7 = 7, k8 = 8, k12 = 12 }, gen: (kani::any(), kani::any(), kani::any()),
     refenc: |v, r| { r.byte(0x83); r.int(v.0 as i128); r.uint(v.1 as u64); r.uint(v.2 as u32 as u64) }, eq: |a, b| a == b);
-codec!(tuple4, t, (u8, u8, i16, bool), len = 8, unwind = 10, skip = crate::util::skip_unreachable, fix0: 0x84, pfx: { k0 = 0, k1 = 1, k7 = 7 }, gen: (kani::any(), kani::any(), kani::any(), kani::any()),
+codec!(tuple4, t, (u8, u8, i16, bool), len = 9, unwind = 11, skip = crate::util::skip_unreachable, fix0: 0x84, pfx: { k1 = 1, k8 = 8 }, gen: (kani::any(), kani::any(), kani::any(), kani::any()),
     refenc: |v, r| { r.byte(0x84); r.uint(v.0 as u64); r.uint(v.1 as u64); r.int(v.2 as i128); r.byte(if v.3 { 0xf5 } else { 0xf4 }) }, eq: |a, b| a == b);
-codec!(array2, q, [u16; 2], len = 7, unwind = 10, skip = crate::util::skip_unreachable, fix0: 0x82, pfx: { k0 = 0, k1 = 1, k3 = 3, k4 = 4, k6 = 6 }, gen: kani::any(),
+codec!(array2, q, [u16; 2], len = 7, unwind = 10, skip = crate::util::skip_unreachable, fix0: 0x82, pfx: { k1 = 1, k3 = 3, k4 = 4, k6 = 6 }, gen: kani::any(),
     refenc: |v, r| { r.byte(0x82); r.uint(v[0] as u64); r.uint(v[1] as u64) }, eq: |a, b| a[0] == b[0] && a[1] == b[1]);
-codec!(array3, t, [i8; 3], len = 7, unwind = 10, skip = crate::util::skip_unreachable, fix0: 0x83, pfx: { k0 = 0, k1 = 1, k6 = 6 }, gen: kani::any(),
+codec!(array3, t, [i8; 3], len = 7, unwind = 10, skip = crate::util::skip_unreachable, fix0: 0x83, pfx: { k1 = 1, k6 = 6 }, gen: kani::any(),
     refenc: |v, r| { r.byte(0x83); r.int(v[0] as i128); r.int(v[1] as i128); r.int(v[2] as i128) },
     eq: |a, b| a[0] == b[0] && a[1] == b[1] && a[2] == b[2]);
-codec!(array0, q, [u8; 0], len = 1, unwind = 10, skip = crate::util::skip_unreachable, fix0: 0x80, pfx: { k0 = 0 }, gen: [],
+codec!(array0, q, [u8; 0], len = 1, unwind = 10, skip = crate::util::skip_unreachable, fix0: 0x80, pfx: {  }, gen: [],
     refenc: |_v, r| { r.byte(0x80) }, eq: |_a, _b| true);
-codec!(bytearray2, q, ByteArray<2>, len = 3, unwind = 10, skip = crate::util::skip_unreachable, fix0: 0x42, pfx: { k0 = 0, k1 = 1, k2 = 2 }, gen: ByteArray::from(kani::any::<[u8; 2]>()),
+codec!(bytearray2, q, ByteArray<2>, len = 3, unwind = 10, skip = crate::util::skip_unreachable, fix0: 0x42, pfx: { k1 = 1, k2 = 2 }, gen: ByteArray::from(kani::any::<[u8; 2]>()),
     refenc: |v, r| { r.byte(0x42); r.byte(v[0]); r.byte(v[1]) }, eq: |a, b| a[0] == b[0] && a[1] == b[1]);
 codec!(bytearray0, t, ByteArray<0>, len = 1, unwind = 10, skip = crate::util::skip_unreachable, fix0: 0x40, gen: ByteArray::from([]),
     refenc: |_v, r| { r.byte(0x40) }, eq: |_a, _b| true);
-codec!(range_, q, Range<u8>, len = 5, unwind = 10, skip = crate::util::skip_unreachable, fix0: 0x82, pfx: { k0 = 0, k1 = 1, k2 = 2, k3 = 3, k4 = 4 }, gen: Range { start: kani::any(), end: kani::any() },
+codec!(range_, q, Range<u8>, len = 5, unwind = 10, skip = crate::util::skip_unreachable, fix0: 0x82, pfx: { k1 = 1, k2 = 2, k3 = 3, k4 = 4 }, gen: Range { start: kani::any(), end: kani::any() },
     refenc: |v, r| { r.byte(0x82); r.uint(v.start as u64); r.uint(v.end as u64) }, eq: |a, b| a == b);
-codec!(range_from, q, RangeFrom<u16>, len = 4, unwind = 10, skip = crate::util::skip_unreachable, fix0: 0x81, pfx: { k0 = 0, k1 = 1, k3 = 3 }, gen: RangeFrom { start: kani::any() },
+codec!(range_from, q, RangeFrom<u16>, len = 4, unwind = 10, skip = crate::util::skip_unreachable, fix0: 0x81, pfx: { k1 = 1, k3 = 3 }, gen: RangeFrom { start: kani::any() },
     refenc: |v, r| { r.byte(0x81); r.uint(v.start as u64) }, eq: |a, b| a == b);
-codec!(range_to, q, RangeTo<i8>, len = 3, unwind = 10, skip = crate::util::skip_unreachable, fix0: 0x81, pfx: { k0 = 0, k1 = 1, k2 = 2 }, gen: RangeTo { end: kani::any() },
+codec!(range_to, q, RangeTo<i8>, len = 3, unwind = 10, skip = crate::util::skip_unreachable, fix0: 0x81, pfx: { k1 = 1, k2 = 2 }, gen: RangeTo { end: kani::any() },
     refenc: |v, r| { r.byte(0x81); r.int(v.end as i128) }, eq: |a, b| a == b);
-codec!(range_to_incl, t, RangeToInclusive<u8>, len = 3, unwind = 10, skip = crate::util::skip_unreachable, fix0: 0x81, pfx: { k0 = 0, k2 = 2 }, gen: RangeToInclusive { end: kani::any() },
+codec!(range_to_incl, t, RangeToInclusive<u8>, len = 3, unwind = 10, skip = crate::util::skip_unreachable, fix0: 0x81, pfx: { k2 = 2 }, gen: RangeToInclusive { end: kani::any() },
     refenc: |v, r| { r.byte(0x81); r.uint(v.end as u64) }, eq: |a, b| a == b);
-codec!(range_incl, q, RangeInclusive<u8>, len = 5, unwind = 10, skip = crate::util::skip_unreachable, fix0: 0x82, pfx: { k0 = 0, k1 = 1, k2 = 2, k3 = 3, k4 = 4 }, gen: RangeInclusive::new(kani::any(), kani::any()),
+codec!(range_incl, q, RangeInclusive<u8>, len = 5, unwind = 10, skip = crate::util::skip_unreachable, fix0: 0x82, pfx: { k1 = 1, k2 = 2, k3 = 3, k4 = 4 }, gen: RangeInclusive::new(kani::any(), kani::any()),
     refenc: |v, r| { r.byte(0x82); r.uint(*v.start() as u64); r.uint(*v.end() as u64) }, eq: |a, b| a == b);
 codec!(duration_, q, Duration, len = 15, unwind = 17, skip = crate::util::skip_unreachable, fix0: 0x82,
-    pfx: { k0 = 0, k1 = 1, k5 = 5, k9 = 9, k10 = 10, k12 = 12, k14 = 14 }, gen: { let s: u64 = kani::any(); let n: u32 = kani::any(); kani::assume(n < 1_000_000_000); Duration::new(s, n) },
+    pfx: { k1 = 1, k5 = 5, k9 = 9, k10 = 10, k12 = 12, k14 = 14 }, gen: { let s: u64 = kani::any(); let n: u32 = kani::any(); kani::assume(n < 1_000_000_000); Duration::new(s, n) },
     refenc: |v, r| { r.byte(0x82); r.uint(v.as_secs()); r.uint(v.subsec_nanos() as u64) }, eq: |a, b| a == b);
+
+// Types whose decoder legitimately calls `Decoder::skip` (on `null` / the unit placeholder):
+// `skip` is replaced by its R3 model (C06 proves skip == R3 on that domain).
+codec!(option_u8, q, Option<u8>, len = 2, unwind = 10, skip = crate::util::skip_r3_small, pfx: { k1 = 1 },
+    gen: kani::any(),
+    refenc: |v, r| { match v { None => r.byte(0xf6), Some(x) => r.uint(*x as u64) } }, eq: |a, b| a == b);
+codec!(option_i32, q, Option<i32>, len = 5, unwind = 10, skip = crate::util::skip_r3_small, pfx: { k1 = 1, k4 = 4 },
+    gen: kani::any(),
+    refenc: |v, r| { match v { None => r.byte(0xf6), Some(x) => r.int(*x as i128) } }, eq: |a, b| a == b);
+codec!(bound_, q, Bound<u8>, len = 4, unwind = 10, skip = crate::util::skip_r3_small, fix0: 0x82, pfx: { k1 = 1, k2 = 2, k3 = 3 },
+    gen: { let k: u8 = kani::any(); let x: u8 = kani::any(); if k == 0 { Bound::Included(x) } else if k == 1 { Bound::Excluded(x) } else { Bound::Unbounded } },
+    refenc: |v, r| { r.byte(0x82); match v { Bound::Included(x) => { r.byte(0); r.uint(*x as u64) } Bound::Excluded(x) => { r.byte(1); r.uint(*x as u64) } Bound::Unbounded => { r.byte(2); r.byte(0x80) } } },
+    eq: |a, b| a == b);
+codec!(tuple_opt, q, (Option<u8>, bool), len = 4, unwind = 10, skip = crate::util::skip_r3_small, fix0: 0x82, pfx: { k1 = 1, k2 = 2, k3 = 3 },
+    gen: (kani::any(), kani::any()),
+    refenc: |v, r| { r.byte(0x82); match v.0 { None => r.byte(0xf6), Some(x) => r.uint(x as u64) }; r.byte(if v.1 { 0xf5 } else { 0xf4 }) },
+    eq: |a, b| a == b);
